@@ -147,6 +147,14 @@ pub fn gather(
     for (i, (mb_type, mv)) in mb_types.iter().zip(mvs.iter()).enumerate() {
         if mb_type.is_inter() {
             let reference_picture = reference_picture.ok_or(Error::UncodedIFrameBlocks)?;
+
+            // Prediction from a reference of another size is not supported
+            // (that would need reference picture resampling).
+            if reference_picture.format().into_width_and_height()
+                != new_picture.format().into_width_and_height()
+            {
+                return Err(Error::PictureFormatInvalid);
+            }
             let luma_samples_per_row = reference_picture.luma_samples_per_row();
             let pos = ((i % mb_per_line) * 16, (i / mb_per_line) * 16);
 
